@@ -95,6 +95,9 @@ def mech(kind, w, design=None):
   src = w.get("source", "")
   if kind == "emitted-text-does-not-parse-or-elaborate" and re.search(r"\d+ ' d - \d+", w.get("error", "")):
     return "negative-free-variable-emitted-as-unsigned-literal"
+  if kind == "emitted-text-does-not-parse-or-elaborate" and re.search(r"instantiated module \w+ is not defined", w.get("error", "")) \
+     and "explicit_module_name" in src:
+    return "explicit-module-name-on-one-of-two-identical-instances-leaves-a-module-undefined"
   if kind == "variable-with-more-than-one-driver" and w.get("all_dual_form"):
     return "yosys-struct-port-driven-by-field-gets-several-drivers"
   if kind == "read-or-output-variable-without-driver" and w.get("all_dual_form"):
